@@ -1,6 +1,7 @@
 package lib
 
 import (
+	"bytes"
 	"sort"
 
 	"verifharness/ref"
@@ -391,7 +392,7 @@ type PlanGen struct {
 	serial uint32
 	known  []uint16
 	last   [16]*ref.Record // last data record written on each slot under its current definition
-	dead   bool // the plan has ended (a record that must be rejected was emitted)
+	dead   bool            // the plan has ended (a record that must be rejected was emitted)
 }
 
 // fileIdRecords returns the definition and data record of the leading file_id.
@@ -736,9 +737,24 @@ func (g *PlanGen) Define(local byte, m uint16, knownMsg bool) {
 				if rng.Chance(3, 10) {
 					bb = rng.Byte()
 				}
-				g.P.Records = append(g.P.Records,
-					ref.Record{IsDef: true, Local: local, Arch: def.Arch, Global: 206, Fields: []ref.FieldDef{{Num: 0, Size: 1, Base: 0x02}, {Num: 1, Size: 1, Base: 0x02}, {Num: 2, Size: 1, Base: 0x02}}},
-					ref.Record{Local: local, Data: [][]byte{{dd.Idx}, {dd.Num}, {bb}}})
+				fdDef := ref.Record{IsDef: true, Local: local, Arch: def.Arch, Global: 206, Fields: []ref.FieldDef{{Num: 0, Size: 1, Base: 0x02}, {Num: 1, Size: 1, Base: 0x02}, {Num: 2, Size: 1, Base: 0x02}}}
+				fdData := ref.Record{Local: local, Data: [][]byte{{dd.Idx}, {dd.Num}, {bb}}}
+				if knownMsg && rng.Chance(1, 2) && p.Field(206, 14) != nil && p.Field(206, 15) != nil {
+					// the description names a "native" field it overrides: one of the unlisted
+					// field numbers this very definition carries (if it has one), else any number
+					nf := rng.Byte()
+					for _, f := range def.Fields {
+						if p.Field(m, f.Num) == nil {
+							nf = f.Num
+							break
+						}
+					}
+					nm := make([]byte, 2)
+					ref.Put(nm, uint64(m), 2, def.Arch)
+					fdDef.Fields = append(fdDef.Fields, ref.FieldDef{Num: 14, Size: 2, Base: 0x84}, ref.FieldDef{Num: 15, Size: 1, Base: 0x02})
+					fdData.Data = append(fdData.Data, nm, []byte{nf})
+				}
+				g.P.Records = append(g.P.Records, fdDef, fdData)
 			}
 		}
 	}
@@ -982,6 +998,12 @@ func (g *PlanGen) Fill() *ref.Plan {
 				r := ref.Record{Local: s}
 				if s < 4 && rng.Chance(1, 3) {
 					r.Compressed = true
+				}
+				if g.defs[3] == nil && rng.Chance(1, 4) {
+					// what erased flash looks like: a run of 0xFF bytes up to the end of the data.
+					// 0xFF is the header of a compressed-timestamp record of local type 3
+					// (offset 31), which has no definition here
+					r = ref.Record{Local: 3, Compressed: true, TimeOffset: 31, Data: [][]byte{bytes.Repeat([]byte{0xFF}, 2+rng.Intn(14))}}
 				}
 				g.P.Records = append(g.P.Records, r)
 				return g.P
